@@ -49,3 +49,9 @@ func VerifAttachTarget(b *TunnelBridge, connID string, c net.Conn, clientID int6
 func VerifHandleCrossNodeTarget(s *SessionManager, tunnelID, mappingID string, conn *types.Connection, netConn net.Conn) error {
 	return s.handleCrossNodeTargetConnection(&packet.TunnelOpenRequest{TunnelID: tunnelID, MappingID: mappingID}, conn, netConn)
 }
+
+// VerifHandleSourceBridge runs the REAL handleSourceBridge (packet_handler_tunnel_bridge.go): what handleTunnelOpen calls for
+// a source-side TunnelOpen that passed its checks - it wraps startSourceBridge and owns its error path.
+func VerifHandleSourceBridge(s *SessionManager, tunnelID, mappingID, secret string, conn *types.Connection, netConn net.Conn) error {
+	return s.handleSourceBridge(conn, &packet.TunnelOpenRequest{TunnelID: tunnelID, MappingID: mappingID, SecretKey: secret}, netConn)
+}
